@@ -4,7 +4,7 @@
    the grammar of TokenProofs.line_ok admits) whose first line is a time stamp and whose time stamps increase, for every
    max_threads and min_chunk, the model of read_values' multi-threaded branch (determine_thread_chunks, one run_chunk per
    chunk, Encoder::append in chunk order, finish) and the model of its single-threaded branch produce stores from which
-   every bit-vector signal reports the same changes and the time tables are equal - although the blocks differ.  The steps: thread_first/thread_later
+   every bit-vector signal (and, _rs, every real and string signal) reports the same changes and the time tables are equal - although the blocks differ.  The steps: thread_first/thread_later
    (which lines a thread started at an arbitrary byte offset parses: from the first line start after its offset to the
    first time stamp line starting beyond its end), ops_tile (these pieces tile the sequential operation list without gap
    or overlap), rec_concat (the recordings of the pieces, shifted by the time stamps before them, are the recording of
@@ -14,14 +14,15 @@
    the sequential parser emits from that line start on, provided the sequential parser is between tokens there;
    no token is split, altered or invented at a seam.  (2) the storage side (appended_transparent for bit vectors, appended_transparent_rs for reals
    and strings): whatever the per-thread encoders recorded is reported in chunk order with shifted time indices, de-duplicated across seams.
-   NOT proved: (0) for real and string signals (the storage half exists: appended_transparent_rs), for bodies that
+   read_values_mt_equals_st_rs / mt_equals_st_rs: the same for real-valued and string-valued variables.
+   NOT proved: (0) for bodies that
    begin with value changes at the implicit time 0, and for layouts other than one token group per line (several
    changes per line, indented lines); for those the tiling is decided by the correspondence run and the oracle.  The
    hypotheses "first line is a time stamp", "time stamps increase", "every line ends in a newline" are exactly where the
    known findings D8/D15/D16 live (Proofs/HandoverRefuted.v). *)
 From WV Require Import Model.Base Model.Bits Model.WaveMem Model.VcdBody Spec.TimeSpec Spec.StoreSpec
   Proofs.TimeTableProofs Proofs.StoreProofs Proofs.EncoderProofs Proofs.BodyProofs Proofs.HandoverProofs Proofs.RealStringEnc
-  Proofs.VcdStreamProofs Proofs.TokenProofs Proofs.TilingProofs Proofs.MtProofs.
+  Proofs.VcdStreamProofs Proofs.TokenProofs Proofs.TilingProofs Proofs.MtProofs Proofs.MtRsProofs.
 From Coq Require Import List Sorted. Import ListNotations.
 Open Scope N_scope.
 
@@ -148,7 +149,51 @@ Check chunks_shape :
   determine_thread_chunks body_len max_threads min_chunk = Ok chunks ->
   exists len0 rest, chunks = (0%nat, len0) :: rest /\ contig 0 chunks /\ (body_len <= end_of 0 chunks)%nat.
 
+
+Check read_values_mt_equals_st_rs :
+  forall (parse_f64 : list byte -> option (list byte)),
+  (forall r le, parse_f64 r = Some le -> length le = 8%nat) ->
+  forall (lz_compress : list byte -> list byte) (lz_decompress : list byte -> nat -> option (list byte)),
+  (forall d n, (length d <= n)%nat -> lz_decompress (lz_compress d) n = Some d) ->
+  forall cap, 1 <= cap -> cap <= 65536 ->
+  forall debug tpes lookup ls max_threads min_chunk b_st t_st b_mt t_mt id str,
+  Forall line_ok ls -> starts_with_time ls -> nth_error tpes id = Some (rs_tpe str) ->
+  read_values_st parse_f64 lz_compress cap debug tpes lookup (body ls) = Ok (b_st, t_st) -> N.of_nat (length t_st) < 4294967296 ->
+  read_values_mt parse_f64 lz_compress cap debug tpes lookup (body ls) max_threads min_chunk = Ok (b_mt, t_mt) ->
+  N.of_nat (length t_mt) < 4294967296 ->
+  (forall ops, ops_of lookup true false (evs ls) = Some ops ->
+     StronglySorted N.lt (times_of ops) /\ Forall (rs_op_ok id str) ops /\ ops_cost id ops < 4294967264) ->
+  exists s_st s_mt,
+    load_signal lz_decompress b_st id (rs_tpe str) = Ok s_st /\
+    load_signal lz_decompress b_mt id (rs_tpe str) = Ok s_mt /\
+    observe_signal s_st = observe_signal s_mt /\ t_st = t_mt.
+
+Check mt_equals_st_rs :
+  forall (parse_f64 : list byte -> option (list byte)),
+  (forall r le, parse_f64 r = Some le -> length le = 8%nat) ->
+  forall (lz_compress : list byte -> list byte) (lz_decompress : list byte -> nat -> option (list byte)),
+  (forall d n, (length d <= n)%nat -> lz_decompress (lz_compress d) n = Some d) ->
+  forall cap, 1 <= cap -> cap <= 65536 ->
+  forall debug tpes lookup ls len0 rest stop_st e_st b_st t_st encs first others e_mt b_mt t_mt id str,
+  Forall line_ok ls -> starts_with_time ls ->
+  contig 0 ((0%nat, len0) :: rest) -> (length (body ls) <= end_of 0 ((0%nat, len0) :: rest))%nat ->
+  nth_error tpes id = Some (rs_tpe str) ->
+  N.of_nat (length (body ls)) <= stop_st + 1 ->
+  read_single_stream parse_f64 lz_compress cap debug tpes lookup (body ls) stop_st true = Ok e_st ->
+  enc_finish lz_compress e_st = Ok (b_st, t_st) -> N.of_nat (length t_st) < 4294967296 ->
+  Forall2 (fun c en => run_chunk parse_f64 lz_compress cap debug tpes lookup (body ls) c = Ok en) ((0%nat, len0) :: rest) encs ->
+  encs = first :: others -> append_all lz_compress first others = Ok e_mt ->
+  enc_finish lz_compress e_mt = Ok (b_mt, t_mt) -> N.of_nat (length t_mt) < 4294967296 ->
+  (forall ops, ops_of lookup true false (evs ls) = Some ops ->
+     StronglySorted N.lt (times_of ops) /\ Forall (rs_op_ok id str) ops /\ ops_cost id ops < 4294967264) ->
+  exists s_st s_mt,
+    load_signal lz_decompress b_st id (rs_tpe str) = Ok s_st /\
+    load_signal lz_decompress b_mt id (rs_tpe str) = Ok s_mt /\
+    observe_signal s_st = observe_signal s_mt /\ t_st = t_mt.
+
 Print Assumptions handover_segment.
+Print Assumptions read_values_mt_equals_st_rs.
+Print Assumptions mt_equals_st_rs.
 Print Assumptions read_values_mt_equals_st.
 Print Assumptions mt_equals_st.
 Print Assumptions ops_tile.
